@@ -46,14 +46,17 @@ class Q:
         if taint:
             self.unknown.append(f"{label}: operand depends on an unmodelled call (havoc)")
             return
-        r, m = self.d.check(list(pre) + [z3.Not(claim)], label)
+        # fail closed: a counterexample whose CLAIM operands are havoc values is not a verdict
+        r, m = self.d.check(list(pre) + [z3.Not(claim)], label, hv_scope=[claim])
         if r == "sat":
             self.fail.append((label, model_str(m)))
         elif r == "unknown":
             self.unknown.append(f"{label}: {m}")
 
     def unsat(self, conds, label):
-        r, m = self.d.check(list(conds), label)
+        conds = list(conds)
+        # by convention the last conjunct is the condition under test (panic condition, count bound, ...)
+        r, m = self.d.check(conds, label, hv_scope=conds[-1:])
         if r == "sat":
             self.fail.append((label, model_str(m)))
         elif r == "unknown":
@@ -413,7 +416,7 @@ def c10_known_answer_filter(ctx):
             continue
         if created is None or ttl is None:
             # legitimate only on the path where the flush flag alone decides (unique record)
-            r0, _ = q.d.check(pre + [z3.Not(flush.e)], f"path {i}: is the shared-record case excluded?")
+            r0, _ = q.d.check(pre + [z3.Not(flush.e)], f"classify: path {i}: is the shared-record case excluded?")
             if r0 == "unsat":
                 q.valid(pre, z3.Not(p.ret.e), f"path {i}: a unique (cache-flush) record is never listed", p.ret.taint)
             else:
@@ -862,10 +865,6 @@ def c12_hostname_timeout_timer(ctx):
     q = Q("c12_hostname_timeout_timer", ["Zeroconf::add_hostname_resolver"],
           "every path of add_hostname_resolver; the timeout option arbitrary", ["Option::map and HashMap::insert are opaque (both outcomes explored)"])
     f = ctx.funcs[ctx.fn("::add_hostname_resolver")]
-    rt = f.debug.get("real_timeout")
-    if not rt or not re.fullmatch(r"_\d+", rt):
-        q.unknown.append("local `real_timeout` not found")
-        return q.result()
     ex = Explorer(ctx.funcs, ctx.consts, max_paths=300)
     paths = ex.explore(f.name)
     n_some = 0
@@ -873,7 +872,8 @@ def c12_hostname_timeout_timer(ctx):
         if p.outcome != "return":
             continue
         timers = [e for e in p.events if e[0] == "call" and e[1].endswith("Zeroconf::add_timer")]
-        discr = [e for e in p.events if e[0] == "discr" and e[2] == rt]
+        # the deadline option is the Option<u64> whose discriminant is examined (whatever the local is called)
+        discr = [e for e in p.events if e[0] == "discr" and "Option<u64>" in f.local_types.get(e[2], "Option<u64>" if re.fullmatch(r"_\d+", e[2]) is None else f.local_types.get(e[2], ""))]
         if timers:
             n_some += 1
             # the timer value is the payload of real_timeout
@@ -1050,7 +1050,7 @@ def c19_browse_listener_gone(ctx):
             q.unknown.append(f"path {i}: outcome of the first send is not examined")
             continue
         dv = d[0][3]
-        is_err = q.d.check(p.cond + [dv.e == 0], f"path {i}: first send Ok?")[0] == "unsat"
+        is_err = q.d.check(p.cond + [dv.e == 0], f"classify: path {i}: first send Ok?")[0] == "unsat"
         if not is_err:
             continue
         n_err += 1
@@ -1088,7 +1088,7 @@ def c20_not_for_us_paths(ctx):
             # a record is stored: either it is for us, or the name already had records
             q.valid(p.cond, z3.Or(forus, z3.Not(empt[0][2].e)), f"path {i}: a record is only stored if it is for us or refreshes a name we already hold")
         if empt and isinstance(empt[0][2], BoolV) and not vec_ins:
-            r0 = q.d.check(p.cond + [z3.Not(forus), empt[0][2].e], f"path {i}: unsolicited-and-unknown case?")[0]
+            r0 = q.d.check(p.cond + [z3.Not(forus), empt[0][2].e], f"classify: path {i}: unsolicited-and-unknown case?")[0]
             if r0 == "sat":
                 n_drop += 1
                 later = [e[1].split("::")[-1] for e in calls if e[1].split("::")[-1] in ("set_expire", "push", "reset_ttl")]
@@ -1119,7 +1119,7 @@ def c20_txt_evicted_without_srv(ctx):
         d = [e for e in ev[gms[0]:gms[1]] if e[0] == "discr"]
         if not d:
             continue
-        srv_none = q.d.check(p.cond + [d[0][3].e != 0], "srv entry absent?")[0] == "unsat"
+        srv_none = q.d.check(p.cond + [d[0][3].e != 0], "classify: srv entry absent?")[0] == "unsat"
         retains_after = [e for e in ev[gms[1]:] if e[0] == "call" and e[1].split("::")[-1].startswith("retain")]
         if srv_none and retains_after:
             ok += 1
@@ -1263,8 +1263,9 @@ def c16_decode_txt_step(ctx):
     # loop head = target of the back edge: the block that compares offset with PtrMetadata(txt)
     head = None
     for b, (st, t) in f.blocks.items():
-        if any("PtrMetadata" in x for x in st) and t.startswith("switchInt") and any(re.match(r"_\d+ = Lt\(", x) for x in st):
-            head = b
+        m = re.match(r"goto -> (bb\d+);", t)
+        if m and int(m.group(1)[2:]) < int(b[2:]) and "(cleanup)" not in t:
+            head = m.group(1)   # target of the back edge
             break
     if not head or not off_local:
         q.unknown.append("loop head / offset local of decode_txt not found")
@@ -1389,7 +1390,7 @@ def c08_rename_by_record_kind(ctx):
             continue
         e = ds[-1][3].e
         for name, val in (("A", 1), ("AAAA", 28), ("SRV", 33), ("TXT", 16), ("PTR", 12)):
-            r, _ = q.d.check(p.cond + [e == z3.BitVecVal(val, e.size())], f"kind {name} -> {change[0]}?")
+            r, _ = q.d.check(p.cond + [e == z3.BitVecVal(val, e.size())], f"classify: kind {name} -> {change[0]}?")
             if r == "sat":
                 kinds.setdefault(name, set()).add(change[0])
     want = {"A": {"hostname_change"}, "AAAA": {"hostname_change"}, "SRV": {"name_change"}, "TXT": {"name_change"}}
